@@ -125,12 +125,9 @@ def execute(case, prefix):
 
     def storage(label):
         c = holder.get('c')
-        # callers never wait for the wrapped storage: the thread that executes the storage call must not hold the buffer lock
-        lock_owner = None
-        for v in vars(c).values() if c is not None else ():
-            lk = v.lock if isinstance(v, S.VCondition) else v
-            if isinstance(lk, (S.VLock, S.VRLock)) and lk.owner is s.cur:
-                lock_owner = lk.owner.name
+        # callers never wait for the wrapped storage: the thread that executes a storage call must not hold ANY lock of the
+        # module (the buffer lock, a per-recording lock, a condition's lock ...) while the storage works
+        lock_owner = s.cur.name if any(lk.owner is s.cur for lk in s.locks) else None
         journal.append((label, lock_owner, ()))
         s.point(('storage', label))     # the wrapped storage is slow: other threads may run meanwhile
         if label == fail_label:
